@@ -108,7 +108,7 @@ func exploreConfig(cfg HCfg, amts []int64, refusals bool, tw *traceWriter, runBa
 			var err error
 			extra := M{"kind": "probe"}
 			if op.Op == "Start" {
-				err = g.Start()
+				err = callOn(g, HOp{Op: "Start"})
 				extra["shuffled"] = cards(g.GetState().Meta.Deck)
 				if err == nil {
 					g.GetState().Meta.Deck = append([]string{}, cfg.Deck...)
